@@ -103,6 +103,21 @@ def u2 (N t : ℕ) : Matrix q k K := I.u0 t + (I.P * I.Su t)ᵀ * I.r N t
 def w2 (N t : ℕ) : Matrix w k K :=
   I.w0 t + (I.H t * I.Sw t)ᵀ * (I.Fi t * I.pe t - (I.T * I.G t)ᵀ * I.r N (t + 1))
 
+/-- backward recursion of `one_step_back` for the MSE: `N_t = Zᵀ Fi Z + Lᵀ N_{t+1} L`, nothing (= 0) from `N` on -/
+def Nm (N : ℕ) (t : ℕ) : Matrix n n K :=
+  if t < N then I.ZtFi t * I.Z t + (I.L t)ᵀ * Nm N (t + 1) * I.L t else 0
+termination_by N - t
+decreasing_by omega
+
+theorem Nm_of_lt {N t : ℕ} (h : t < N) : I.Nm N t = I.ZtFi t * I.Z t + (I.L t)ᵀ * I.Nm N (t + 1) * I.L t := by
+  rw [Nm, if_pos h]
+
+theorem Nm_of_ge {N t : ℕ} (h : N ≤ t) : I.Nm N t = 0 := by
+  rw [Nm, if_neg (by omega)]
+
+/-- smoothed MSE of the state (`Qk` of `one_step_back`) -/
+def Q2 (N t : ℕ) : Matrix n n K := symm (I.Q0 t - I.Q0 t * I.Nm N t * I.Q0 t)
+
 /-- first-order simulation `x_{j+1} = T x_j + K + P u_{j+1}` started at `x0`, driven by `u (s+1), u (s+2), …` -/
 def sim (x0 : Matrix n k K) (u : ℕ → Matrix q k K) (s : ℕ) : ℕ → Matrix n k K
   | 0 => x0
@@ -163,6 +178,25 @@ theorem Q1_eq (hI : I.Regular) (t : ℕ) : I.Q1 t = I.Q0 t - I.G t * I.Z t * I.Q
   rw [hG']
   simp only [Matrix.mul_assoc]
   rfl
+
+theorem Nm_symm (hI : I.Regular) (N : ℕ) : ∀ (d t : ℕ), N - t = d → (I.Nm N t)ᵀ = I.Nm N t := by
+  intro d
+  induction d with
+  | zero =>
+    intro t h
+    rw [I.Nm_of_ge (by omega), Matrix.transpose_zero]
+  | succ d ih =>
+    intro t h
+    rw [I.Nm_of_lt (by omega)]
+    have hZ : I.ZtFi t = (I.Z t)ᵀ * I.Fi t := rfl
+    rw [hZ]
+    simp only [Matrix.transpose_add, Matrix.transpose_mul, Matrix.transpose_transpose, hI.Fi_symm t, ih (t + 1) (by omega),
+      Matrix.mul_assoc]
+
+theorem Q2_eq (hI : I.Regular) (N t : ℕ) : I.Q2 N t = I.Q0 t - I.Q0 t * I.Nm N t * I.Q0 t := by
+  unfold Q2
+  apply symm_of_symmetric
+  simp only [Matrix.transpose_sub, Matrix.transpose_mul, I.Q0_symm t, I.Nm_symm hI N _ t rfl, Matrix.mul_assoc]
 
 end Inputs
 
